@@ -118,4 +118,50 @@ example :
     bind ps ([T.makeUnion [T.makeAnyInt, T.makeAnyString]].map Arg.pos) = .ok := by decide
 end
 
+section
+open RubyTi.Bind
+
+theorem tryOverloads_accepted (args : List Arg) (os : List (List Param)) (last : Res)
+    (h : ∃ o ∈ os, RubyTi.Bind.bind o args = .ok) : tryOverloads args os last = .ok := by
+  induction os generalizing last with
+  | nil => simp at h
+  | cons o rest ih =>
+    simp only [tryOverloads]
+    by_cases ho : RubyTi.Bind.bind o args = .ok
+    · simp [ho]
+    · have : (RubyTi.Bind.bind o args == Res.ok) = false := by simpa using ho
+      simp only [this]
+      obtain ⟨x, hx, hxo⟩ := h
+      rcases List.mem_cons.mp hx with e | e
+      · subst e; exact absurd hxo ho
+      · exact ih _ ⟨x, e, hxo⟩
+
+theorem bindClass_accepted (decls : List (List Param)) (args : List Arg)
+    (h : ∃ d ∈ decls, RubyTi.Bind.bind d args = .ok) : bindClass decls args = .ok := by
+  cases decls with
+  | nil => simp at h
+  | cons d os =>
+    simp only [bindClass]
+    by_cases hd : RubyTi.Bind.bind d args = .ok
+    · simp [hd]
+    · have : (RubyTi.Bind.bind d args == Res.ok) = false := by simpa using hd
+      simp only [this]
+      obtain ⟨x, hx, hxo⟩ := h
+      rcases List.mem_cons.mp hx with e | e
+      · subst e; exact absurd hxo hd
+      · exact tryOverloads_accepted args os _ ⟨x, e, hxo⟩
+
+/-- **No false alarm on a union receiver**: when every class of the receiver has a declaration (the first one or
+an overload) that accepts the arguments, the call is accepted — for any number of classes and overloads. -/
+theorem union_fitting_call_accepted (classes : List (List (List Param))) (args : List Arg)
+    (h : ∀ c ∈ classes, ∃ d ∈ c, RubyTi.Bind.bind d args = .ok) : bindUnion classes args = .ok := by
+  induction classes with
+  | nil => rfl
+  | cons k rest ih =>
+    have hk : bindClass k args = .ok := bindClass_accepted k args (h k (by simp))
+    simp only [bindUnion, hk]
+    simpa using ih (fun c hc => h c (by simp [hc]))
+
+end
+
 end RubyTi.C08
